@@ -413,6 +413,44 @@ def c05_densmap_isolated():
     return None if e.shape == (60, 2) and np.isfinite(e[1:]).all() else "densMAP with an isolated sample: non-finite rows of connected samples"
 
 
+def c05_unique_explicit_zero():
+    import umap
+    X = _rng(0).normal(size=(30, 5)).astype(np.float32)
+    X[np.abs(X) < 0.6] = 0
+    X[10] = X[0]
+    S = scipy.sparse.csr_matrix(X)
+    zc = int(np.where(X[0] == 0)[0][0])
+    ind, dat, ptr = [], [], [0]
+    for i in range(30):
+        a, b = S.indptr[i], S.indptr[i + 1]
+        c, v = S.indices[a:b].tolist(), S.data[a:b].tolist()
+        if i == 10:
+            c.append(zc)
+            v.append(0.0)
+        ind += c
+        dat += v
+        ptr.append(len(ind))
+    S2 = scipy.sparse.csr_matrix((np.array(dat, dtype=np.float32), np.array(ind), np.array(ptr)), shape=S.shape)
+    with warnings.catch_warnings():
+        warnings.simplefilter("ignore")
+        e = umap.UMAP(n_neighbors=5, unique=True, random_state=1, n_epochs=8).fit_transform(S2)
+    return None if np.array_equal(e[0], e[10], equal_nan=True) else "unique=True: identical CSR rows (one with an explicitly stored zero) get different embedding rows"
+
+
+def c04_metric_supervision_far_edges():
+    """a continuous target: the target's neighbour graph joins samples of both clusters; the general fuzzy intersection works on the
+    union of the two supports (absent entries count as half the smallest stored value) and the renormalisation lifts them to 1"""
+    import umap
+    r = _rng(0)
+    X = np.vstack([r.normal(size=(30, 3)), r.normal(size=(30, 3)) + 20]).astype(np.float32)
+    y = r.normal(size=60)
+    with warnings.catch_warnings():
+        warnings.simplefilter("ignore")
+        g = umap.UMAP(n_neighbors=6, disconnection_distance=10.0, target_metric="l2", random_state=1, n_epochs=0).fit(X, y).graph_.tocoo()
+    far = sum(1 for i, j in zip(g.row, g.col) if np.linalg.norm(X[i] - X[j]) >= 10.0)
+    return None if far == 0 else f"supervised fit with a continuous target: {far} edges join samples at distance >= disconnection_distance"
+
+
 def c17_short_run():
     """n_epochs <= 10 on a graph with edges between max/700 and max/500"""
     import umap
@@ -559,6 +597,8 @@ WITNESSES = {
     "C10:sparse-training-data-not-recognised": c10_csr_copy,
     "C10:list-n_epochs-transform-typeerror": c10_list_epochs,
     "C05:densmap-isolated-sample": c05_densmap_isolated,
+    "C04:metric-supervision-adds-far-edges": c04_metric_supervision_far_edges,
+    "C05:unique-explicit-zero": c05_unique_explicit_zero,
     "C14:bray_curtis_grad": c14_braycurtis,
     "C14:symmetric_kl_grad": c14_symmetric_kl,
     "C14:gaussian_energy_grad": c14_gaussian_energy,
